@@ -3,5 +3,5 @@ From Coq Require Import Extraction ExtrOcamlBasic.
 From Tele Require Import Lib.Bytes Lib.Calendar Lib.Sort Model.Worker.
 Extraction Language OCaml.
 Extraction "worker_model.ml" frame unframe merge read_merged handle_chart read_day chart_ok programs_ok
-  config_wellformed malformed_goversion go_major_minor split_counter_name expand is_toolchain
+  go_major_minor split_counter_name expand is_toolchain
   rank_lt iter_id group max_week spec_count chart_object_name fmt_date.
